@@ -51,7 +51,7 @@ theorem self_miter_nobbi {c m0 : Circuit} {ord : Ord} (hord : OrdOK ord) (hc : L
       have := (hepA o).2 this
       rw [e] at this
       cases this
-  have T := miter_ep_types hc hc hb hb hne hsp hep h
+  have T := miter_ep_types hc hc hb hb hne h
   intro q hq hty
   have hmem : q.1 ∈ c.endpointsAll := by
     unfold endpointsAll
@@ -153,7 +153,7 @@ theorem mv_nobb {c0 c1 m : Circuit} {sp ep : List Name} (V : MView c0 c1 sp ep m
   · exact n0 q hq (stripA_bb ht hb)
   · exact n1 q hq (stripA_bb ht hb)
   · rcases hb with hb | hb <;> exact absurd hb (by decide)
-  · rcases satTy_cases ep with h | h <;> rw [h] at e <;> subst e <;> rcases hb with hb | hb <;>
+  · rcases satTy_cases ep with h | h | h <;> rw [h] at e <;> subst e <;> rcases hb with hb | hb <;>
       exact absurd hb (by decide)
   · rcases hb with hb | hb <;> exact absurd hb (by decide)
 
@@ -171,7 +171,7 @@ theorem sensitization_clean {c m : Circuit} {n : Name} {ord : Ord} {ordE : List 
   have hep0 : ∀ e ∈ ep, c.has e = true := fun e he => mem_outputs_has ((hep e).1 he)
   have hept : ∀ e ∈ ep, ∀ a, (e, a) ∈ c.nodes → a.ty ≠ some "bb_input" ∧ a.ty ≠ some "bb_output" :=
     fun e _ a ha => ⟨hnbi (e, a) ha, hnbo (e, a) ha⟩
-  have H : TiedHyp c c sp ep := ⟨hc, hc, hspN, hepN, hepne, hin0, hin0, hall, hall, hep0, hep0, hept, hept⟩
+  have H : TiedHyp c c sp ep := ⟨hc, hc, hspN, hepN, hin0, hin0, hall, hall, hep0, hep0, hept, hept⟩
   have L0 := mv_lintClean V H
   have d := noDots_of_registered hb hr
   have D0 := mv_noDots V d d hin0 hep0
